@@ -62,7 +62,8 @@ def main():
     a = ap.parse_args()
     fails, n, nontrivial = [], 0, 0
     for mech, u, pw, salt, it in cases(a.tier, a.seed):
-        for tamper in (None, "nonce-prefix", "salt", "iterations", "signature", "no-signature", "wrong-password"):
+        for tamper in (None, "nonce-prefix", "salt", "iterations", "signature", "signature-last-bit", "signature-truncated",
+                       "signature-one-byte", "signature-empty", "signature-extended", "no-signature", "wrong-password"):
             n += 1
             srv_pw = pw + "!" if tamper == "wrong-password" else pw
             srv = Server(mech, {u: srv_pw}, salt, it, tamper=None if tamper == "wrong-password" else tamper)
@@ -86,7 +87,7 @@ def main():
             break
     emit({"name": "scram-exchange-vs-rfc5802-server", "exhaustive": False, "cases": n, "distinct_nontrivial": nontrivial,
           "bound": "usernames: every string of length <= %d over {a , = e-acute} plus escapes; both mechanisms; salts of 1/16/64 "
-                   "bytes; iteration counts incl. 1 and %d; honest server, 5 single-field tamperings, wrong password; seed %d"
+                   "bytes; iteration counts incl. 1 and %d; honest server, 10 single-field tamperings (incl. truncated / empty / extended signature), wrong password; seed %d"
                    % (3 if a.tier == "quick" else 4, 4096 if a.tier == "quick" else 20000, a.seed),
           "failures": fails, "replay": {"script": REPLAY}})
 
@@ -99,7 +100,7 @@ from bounded import C18
 from specs.scram_rfc5802 import Server
 bad = []
 for mech, u, pw, salt, it in C18.cases("quick", 0):
-    for tamper in (None, "nonce-prefix", "signature"):
+    for tamper in (None, "nonce-prefix", "signature", "signature-truncated", "signature-empty", "signature-extended"):
         srv = Server(mech, {u: pw}, salt, it, tamper=tamper)
         out = C18.exchange(mech, u, pw, srv)
         ok = (out == "completed" and srv.accepted) if tamper is None else not out == "completed"
